@@ -67,6 +67,8 @@ def main():
                 print(p, "exit", rc, viol[:1])
         finally:
             sh(f"git -C {REPO} checkout -- .")
+            # the translators ran against the changed tree: regenerate the generated Lean files from the clean one
+            sh("/venv/bin/python -m harness.translate.all", cwd=VERIF)
             # evidence files were rewritten against the changed tree: regenerate on the clean tree later
     meta["check_results"] = results
     dst = os.path.join(VERIF, "seeded", sid)
